@@ -18,6 +18,7 @@ package internal
 //@   ensures @cleaneof result_1 != nil && errIs(result_1, io.EOF) ==> rdPos[r.in] == old(rdPos[r.in]) && rdPos[r.in] == len(rdStream[r.in])
 //@   ensures @truncated result_1 != nil && rdPos[r.in] > old(rdPos[r.in]) ==> !errIs(result_1, io.EOF)
 //@   ensures @progress rdPos[r.in] >= old(rdPos[r.in]) && rdPos[r.in] <= old(rdPos[r.in]) + numBytes
+//@   ensures @honest result_1 != nil && (errIs(result_1, io.EOF) || errIs(result_1, io.ErrUnexpectedEOF)) ==> len(rdStream[r.in]) < old(rdPos[r.in]) + numBytes
 //@   ensures forall q io.Reader :: q != r.in ==> rdPos[q] == old(rdPos[q])
 //@   loop 0: invariant 0 <= offs && offs <= numBytes && len(data) == numBytes && fresh(data) && !held[r.mu]
 //@           invariant rdPos[r.in] == old(rdPos[r.in]) + offs
@@ -48,6 +49,8 @@ package internal
 //@   ensures @oversize rdPos[r.in] >= old(rdPos[r.in]) + 4 && be32At(rdStream[r.in], old(rdPos[r.in])) > r.maxSize ==> readErr != nil && rdPos[r.in] == old(rdPos[r.in]) + 4
 //@   ensures @truncated readErr != nil && rdPos[r.in] > old(rdPos[r.in]) &&
 //@       !(rdPos[r.in] == old(rdPos[r.in]) + 4 && be32At(rdStream[r.in], old(rdPos[r.in])) > r.maxSize) ==> !errIs(readErr, io.EOF)
+//@   ensures @honest readErr != nil && rdPos[r.in] != old(rdPos[r.in]) + 4 && (errIs(readErr, io.EOF) || errIs(readErr, io.ErrUnexpectedEOF)) ==>
+//@       len(rdStream[r.in]) < old(rdPos[r.in]) + 4 || len(rdStream[r.in]) < old(rdPos[r.in]) + 4 + be32At(rdStream[r.in], old(rdPos[r.in]))
 //@   ensures @cleaneof readErr != nil && errIs(readErr, io.EOF) && rdPos[r.in] != old(rdPos[r.in]) + 4 ==> rdPos[r.in] == old(rdPos[r.in]) && rdPos[r.in] == len(rdStream[r.in])
 //@   //# (the size-limit error is built by fmt.Errorf, about which only "non-nil" is assumed; hence the exclusion of the position right after the prefix)
 
@@ -59,6 +62,7 @@ package internal
 //@   modifies rdPos
 //@   ensures @consumed result == nil ==> rdPos[p.in] == old(rdPos[p.in]) + 4 + be32At(rdStream[p.in], old(rdPos[p.in]))
 //@   ensures @cleaneof result != nil && errIs(result, io.EOF) && rdPos[p.in] < old(rdPos[p.in]) + 4 ==> rdPos[p.in] == old(rdPos[p.in]) && rdPos[p.in] == len(rdStream[p.in])
+//@   ensures @honest result != nil && rdPos[p.in] < old(rdPos[p.in]) + 4 && (errIs(result, io.EOF) || errIs(result, io.ErrUnexpectedEOF)) ==> len(rdStream[p.in]) < old(rdPos[p.in]) + 4
 //@   ensures @truncated result != nil && rdPos[p.in] > old(rdPos[p.in]) && rdPos[p.in] < old(rdPos[p.in]) + 4 + be32At(rdStream[p.in], old(rdPos[p.in])) ==> !errIs(result, io.EOF)
 
 //@ func (*protoEncoder).Encode
